@@ -8,6 +8,7 @@ import Ivg.Model.Gradient
 namespace Ivg.Gen.Tie
 open Ivg Ivg.Num Ivg.Gen.Code Ivg.Grad
 
+tolerant
 /-- Go `i & 1` on a (64-bit) `int` is the parity `i % 2`, for EVERY integer (the wrap-around of `Int64.ofInt`
     preserves the parity) -/
 theorem int_and_one (i : Int) : Go.int_and i 1 = i % 2 := by
@@ -21,6 +22,7 @@ theorem int_and_one (i : Int) : Go.int_and i 1 = i % 2 := by
   rw [BitVec.toInt_eq_toNat_of_lt (by omega), h1]
   omega
 
+tolerant
 /-- gradient.go `Spread.Clamp` (spread = 0 none, 1 pad, 2 reflect, 3 repeat; any other value behaves as none) -/
 theorem spread_Clamp_code_tie (s : UInt8) (x : F64) : render_Spread_Clamp s x = clamp (α := F32) s x := by
   simp only [render_Spread_Clamp, clamp, zeroB, oneB, f64_ofInt_zero, f64_ofInt_one, f64_ofInt_neg_one, f64_le_iff,
@@ -34,14 +36,17 @@ theorem spread_Clamp_code_tie (s : UInt8) (x : F64) : render_Spread_Clamp s x = 
 /-- the Go `[6]float64` of the model's pixel-to-gradient matrix -/
 def gradAff3Of (m : Grad.Aff3 F64) : Vector F64 6 := #v[m.a, m.b, m.c, m.d, m.e, m.f]
 
+tolerant
 /-- gradient.go `(*Gradient).GradientShape` (an `int` in Go) -/
 theorem gradient_GradientShape_code_tie (g : Gradient F64) :
     render_Gradient_GradientShape g.shape = (g.shape.toNat : Int) := rfl
 
+tolerant
 /-- gradient.go `(*Gradient).SpreadMethod` -/
 theorem gradient_SpreadMethod_code_tie (g : Gradient F64) :
     render_Gradient_SpreadMethod g.spread = (g.spread.toNat : Int) := rfl
 
+tolerant
 /-- gradient.go `(*Gradient).Transform` -/
 theorem gradient_Transform_code_tie (g : Gradient F64) :
     render_Gradient_Transform (gradAff3Of g.pix2Grad) =
@@ -61,8 +66,10 @@ def rgba64Of (c : RGBA64) : image_color_RGBA64 :=
 /-- every channel fits a `uint16` (true of `Ren.rgba64Of c`, whose channels are `c.x * 0x101 ≤ 65535`) -/
 def RGBA64.Fits (c : RGBA64) : Prop := c.r < 65536 ∧ c.g < 65536 ∧ c.b < 65536 ∧ c.a < 65536
 
+tolerant
 @[simp] theorem rgba64Of_rgba64To (c : image_color_RGBA64) : rgba64Of (rgba64To c) = c := by
   simp [rgba64Of, rgba64To]
+tolerant
 theorem rgba64To_rgba64Of (c : RGBA64) (h : RGBA64.Fits c) : rgba64To (rgba64Of c) = c := by
   obtain ⟨r, g, b, a⟩ := c
   obtain ⟨h1, h2, h3, h4⟩ := h
@@ -79,6 +86,7 @@ def rangeOf (r : Range F64) : render_Range :=
    Arith.ofInt r.c0.r, Arith.ofInt r.c1.r, Arith.ofInt r.c0.g, Arith.ofInt r.c1.g,
    Arith.ofInt r.c0.b, Arith.ofInt r.c1.b, Arith.ofInt r.c0.a, Arith.ofInt r.c1.a⟩
 
+tolerant
 /-- gradient.go `MakeRange`, for every pair of Go stops (through `stopTo` on the arguments and `rangeOf` on the
     result) -/
 theorem makeRange_code_tie (s0 s1 : render_Stop) :
@@ -86,6 +94,7 @@ theorem makeRange_code_tie (s0 s1 : render_Stop) :
   simp only [render_MakeRange, makeRange, rangeOf, stopTo, rgba64To, Go.cvt_u16_f64]
   rfl
 
+tolerant
 /-- gradient.go `MakeRange` seen from the model: for model stops whose channels fit a `uint16` (hypotheses `h0 h1`;
     the renderer only builds stops by `Ren.rgba64Of`, which satisfy it) -/
 theorem makeRange_code_tie_model (s0 s1 : Stop F64) (h0 : RGBA64.Fits s0.color) (h1 : RGBA64.Fits s1.color) :
